@@ -152,6 +152,36 @@ def cmd_check(prop, tier, args):
             lines.append(f"VIOLATION property={prop} replay={path}")
             lines.append(f"  signature={list(sig)} seed={r['seed']} config={r['config']} what={json.dumps(vv.get('detail', vv))[:500]}")
             exit_code = 1
+    # regression corpus: the minimised replays of every recorded finding (open and fixed) are re-executed on this tree;
+    # a fixed defect that returns, or any violation they raise that is not a listed open finding, is reported
+    import glob
+    corpus_n = 0
+    for fp in sorted(glob.glob(os.path.join(HERE, "findings", f"{prop}-*.json"))):
+        try:
+            with open(fp) as f:
+                rp = json.load(f)
+            if rp.get("property") != prop:
+                continue
+            res = runner.run_trace_fresh(rp["trace"])
+        except Exception as ex:  # a corpus file that cannot be executed is a harness problem, never a clean result
+            herr.append(f"regression corpus file {fp} could not be executed: {ex!r}")
+            continue
+        corpus_n += 1
+        for v in res["violations"]:
+            if v.get("prop") != prop:
+                continue
+            sig = findings.signature(v)
+            ent = findings.match_open(sig, kf)
+            if ent is not None:
+                if ent["id"] not in known_printed:
+                    known_printed.add(ent["id"])
+                    lines.append(f"KNOWN-FINDING: property={prop} {ent['what']} (signature {list(sig)}, regression corpus {os.path.basename(fp)})")
+                continue
+            n_viol += 1
+            lines.append(f"VIOLATION property={prop} replay={fp}")
+            lines.append(f"  signature={list(sig)} regression-corpus what={json.dumps(v.get('detail', v))[:500]}")
+            exit_code = 1
+            break
     for e in kf.get("open", []):
         if e["property"] == prop and e["id"] not in known_printed:
             lines.append(f"KNOWN-FINDING: property={prop} {e['what']} (not re-observed in this run)")
